@@ -31,6 +31,11 @@ type ChunkSpec struct {
 	MessageIndex       bool
 	IndexEmptyChannels bool   // also emit (empty) message index records for channels defined in the chunk without messages
 	MIPad              []byte // padding on message index records
+	// Hostile layouts (C10): Stored, when set, maps the uncompressed records to
+	// the bytes to store instead of compressing them (a stream that decompresses
+	// to fewer / more bytes than declared, a frame header declaring a huge content
+	// size, ...); every pointer is still computed from what is written.
+	Stored func(records []byte) []byte
 }
 
 // SummarySpec lays out the summary section.
@@ -303,6 +308,9 @@ func Encode(fs *FileSpec) ([]byte, error) {
 			stored, err := Compress(cs.Compression, cb)
 			if err != nil {
 				return nil, err
+			}
+			if cs.Stored != nil {
+				stored = cs.Stored(cb)
 			}
 			var e enc
 			e.u64(cmin)
